@@ -806,3 +806,158 @@ func parsesWhatItWasGiven(c *Ctx, rule string) {
 	}
 	R.Role(rule, "calls of url.Parse in validURL", n, 1)
 }
+
+// barePermissionOnRequest (C02.R11): "allowed without attributes" is a permission the caller asks for.  Outside init()
+// every update of the bare-element set or the bare-element pattern list sits under the true edge of a boolean field of the
+// builder it is a method of; that field is only ever given the constant true, by functions (the AllowNoAttrs entries)
+// that nothing in the library itself calls.  A builder that delegates to AllowNoAttrs() for convenience, or a flag
+// computed from something else, makes elements pass bare although the user only allowed them with attributes.
+func barePermissionOnRequest(c *Ctx, rule string) {
+	R := c.R
+	F := model.FindFields(c.P)
+	set, pats := F.Get("bareSet"), F.Get("bareRegexps")
+	if set == "" || pats == "" {
+		R.Unknown(rule, "fields", "bare-element set and pattern list of Policy", "", "role not resolvable")
+		return
+	}
+	type flagKey struct {
+		t   string
+		idx int
+	}
+	flags := map[flagKey]string{}
+	nw, ndef := 0, 0
+	for _, fn := range moduleFuncs(c.P) {
+		if fn.Pkg == nil || fn.Pkg.Pkg.Path() != "github.com/microcosm-cc/bluemonday" {
+			continue
+		}
+		var A *pa.Analysis
+		cnt := 0
+		for _, b := range fn.Blocks {
+			for _, in := range b.Instrs {
+				what := ""
+				switch x := in.(type) {
+				case *ssa.MapUpdate:
+					if model.LoadedPolicyField(x.Map) == set {
+						what = set
+						if _, isConst := x.Key.(*ssa.Const); isConst {
+							// a fixed name: the default vocabulary, whose content C04.R1 compares with the documented list
+							what = ""
+							ndef++
+						}
+					}
+				case *ssa.Store:
+					if model.PolicyField(x.Addr) == pats {
+						what = pats
+					}
+					if model.PolicyField(x.Addr) == set {
+						// installing a whole table: init()'s default table (a fresh literal) — decided by C02.R10/C17.R4
+						continue
+					}
+				}
+				if what == "" || fn.Name() == "init" && fn.Signature.Recv() != nil {
+					continue
+				}
+				if A == nil {
+					A = model.NewAnalysis(fn)
+					translateAll(A)
+				}
+				cnt++
+				nw++
+				found := ""
+				for d := b.Idom(); d != nil && found == ""; d = d.Idom() {
+					for k, sblk := range d.Succs {
+						if len(d.Succs) != 2 || d.Succs[0] == d.Succs[1] || !(sblk == b || sblk.Dominates(b)) || len(sblk.Preds) != 1 {
+							continue
+						}
+						for a, pol := range impliedLiterals(A.EdgeCond(d, k)) {
+							at := A.Atoms[a]
+							if !pol || at.Kind != "val" {
+								continue
+							}
+							u, ok := at.Resolve(at.X).(*ssa.UnOp)
+							if !ok {
+								continue
+							}
+							fa, ok := u.X.(*ssa.FieldAddr)
+							if !ok || len(fn.Params) == 0 || fa.X != ssa.Value(fn.Params[0]) {
+								continue
+							}
+							if bt, ok := u.Type().Underlying().(*types.Basic); ok && bt.Kind() == types.Bool {
+								found = pa.FieldName(fa)
+								flags[flagKey{fa.X.Type().String(), fa.Field}] = found
+							}
+						}
+					}
+				}
+				R.Check(found != "", rule, fmt.Sprintf("guard:%s:%s#%d", pa.CalleeName(fn), what, cnt), pa.CalleeName(fn)+": update of "+what, c.P.Pos(in.Pos()),
+					"only under the builder's own boolean request flag ("+found+")", "the bare-element table is updated although the caller did not ask for it: an element allowed only with attributes is emitted without any")
+			}
+		}
+	}
+	R.Role(rule, "updates of the bare-element tables outside init", nw, 2)
+	R.OK(rule, "defaults", fmt.Sprintf("%d updates of the bare-element set under a constant name", ndef), "", "the default vocabulary (content decided by the UGC vocabulary rules), not a permission derived from the caller's arguments")
+	// who sets the flag
+	requesters := map[*ssa.Function]bool{}
+	ns := 0
+	for _, fn := range moduleFuncs(c.P) {
+		if fn.Pkg == nil || fn.Pkg.Pkg.Path() != "github.com/microcosm-cc/bluemonday" {
+			continue
+		}
+		cnt := 0
+		for _, b := range fn.Blocks {
+			for _, in := range b.Instrs {
+				st, ok := in.(*ssa.Store)
+				if !ok {
+					continue
+				}
+				fa, ok := st.Addr.(*ssa.FieldAddr)
+				if !ok {
+					continue
+				}
+				name, ok := flags[flagKey{fa.X.Type().String(), fa.Field}]
+				if !ok {
+					continue
+				}
+				cnt++
+				ns++
+				k, isConst := st.Val.(*ssa.Const)
+				if isConst && k.Value != nil && k.Value.String() == "true" {
+					requesters[fn] = true
+				}
+				R.Check(isConst, rule, fmt.Sprintf("flag-store:%s#%d", pa.CalleeName(fn), cnt), pa.CalleeName(fn)+": store to "+name, c.P.Pos(st.Pos()), "a constant", "the request flag is computed: bare permission no longer means the caller asked for it")
+			}
+		}
+	}
+	R.Role(rule, "stores to the request flag", ns, 2)
+	n := 0
+	for _, fn := range moduleFuncs(c.P) {
+		if fn.Pkg == nil || fn.Pkg.Pkg.Path() != "github.com/microcosm-cc/bluemonday" {
+			continue
+		}
+		cnt := 0
+		for _, b := range fn.Blocks {
+			for _, in := range b.Instrs {
+				ci, ok := in.(ssa.CallInstruction)
+				if !ok {
+					continue
+				}
+				cal := ci.Common().StaticCallee()
+				if cal == nil || !requesters[cal] {
+					continue
+				}
+				cnt++
+				n++
+				R.Fail(rule, fmt.Sprintf("internal-request:%s->%s#%d", pa.CalleeName(fn), pa.CalleeName(cal), cnt), pa.CalleeName(fn)+": call of "+pa.CalleeName(cal), c.P.Pos(in.Pos()),
+					"the library itself asks for bare permission: the elements this builder registers pass without attributes although the user only allowed them with some")
+			}
+		}
+	}
+	var rs []string
+	for f := range requesters {
+		rs = append(rs, pa.CalleeName(f))
+	}
+	sort.Strings(rs)
+	if n == 0 {
+		R.OK(rule, "internal-request:none", "functions setting the request flag: "+strings.Join(rs, ", "), "", "none of them is called from within the library")
+	}
+}
